@@ -38,8 +38,55 @@ def d10b(m, w):
     return False
 
 
+def _canon_sel(sel):
+    reqs = ['%s=%s' % (k, v) for k, v in sel['ml'].items()]
+    for e in sel['ex']:
+        if e['op'] == 'In' and len(e['vals']) == 1:
+            reqs.append('%s=%s' % (e['key'], e['vals'][0]))
+        else:
+            reqs.append('%s %s %s' % (e['key'], e['op'], ','.join(sorted(e['vals']))))
+    return tuple(sorted(reqs))
+
+
+def _spelling(sel):
+    import json
+    return json.dumps(sel, sort_keys=True)
+
+
+NAME_KEY = 'kubernetes.io/metadata.name'
+
+
+def d8_equivalent_selector_spellings(w):
+    """Two NetworkPolicy rule peers denote the same representative peer (equal requirements once a single-value In is
+    read as equality and a nil namespaceSelector as 'the policy's namespace by name') but are spelled differently:
+    exposure analysis keeps whichever comes first in the input."""
+    seen = {}
+    for np in w['netpols']:
+        for d in ('ingress', 'egress'):
+            for r in np[d]:
+                for p in r['peers']:
+                    if p['kind'] != 'pod':
+                        continue
+                    if p['nsNil']:
+                        nskey = ('%s=%s' % (NAME_KEY, np['ns']),)
+                        nsspell = 'nil:' + np['ns']
+                    else:
+                        nskey = _canon_sel(p['nsSel'])
+                        nsspell = _spelling(p['nsSel'])
+                    podkey = () if p['podNil'] else _canon_sel(p['podSel'])
+                    podspell = 'nil' if p['podNil'] else _spelling(p['podSel'])
+                    key = (nskey, podkey)
+                    spell = (nsspell, podspell)
+                    if key in seen and seen[key] != spell:
+                        return True
+                    seen.setdefault(key, spell)
+    return False
+
+
 def classify(prop, m, wev, tev):
     w = wev.get('world') if isinstance(wev, dict) else None
     if prop == 'C10' and w is not None and d10b(m, w):
         return 'D10b-ingress-number-matches-targetport'
+    if prop == 'C08' and w is not None and m and m[0] == 'C08-output-varies' and m[1].endswith('/true') and d8_equivalent_selector_spellings(w):
+        return 'D8-exposure-equivalent-selectors-first-wins'
     return None
